@@ -176,6 +176,18 @@ FilterTrue(f, e) ==
                       LET A == SubVals(f.fa, Member(e, f.ka))
                           B == SubVals(f.fb, Member(e, f.kb)) IN
                       \E i \in 1..Len(A), j \in 1..Len(B) : ~IsCont(A[i]) /\ A[i] = B[j]
+    \* "mr" `@.key <cmp> $.rk<rf>` (sw: operands swapped): the `$`-rooted operand is multi-valued (wildcard, index union, slice on the
+    \* member rk of the ROOT, or `$..rk`); Bind copies its values into the fragment (rvs).  As in spec/Script.tla: an operand that selects
+    \* nothing is the single value Nothing, the comparison is true when SOME pair of values satisfies it, values of different kinds are
+    \* unequal, `<` holds between numbers only (the operands of the generated cases are small integers).
+    [] f.op = "mr" -> "rvs" \in DOMAIN f /\
+                      LET Nth0 == [n |-> 0]                                          \* Nothing
+                          L == IF HasKey(e, f.key) THEN <<Member(e, f.key)>> ELSE <<Nth0>>
+                          R == IF f.rvs = <<>> THEN <<Nth0>> ELSE f.rvs
+                          Cmp(x, y) == CASE f.cmp = "eq" -> x = y
+                                         [] f.cmp = "ne" -> x # y
+                                         [] OTHER -> IsInt(x) /\ IsInt(y) /\ x.i < y.i IN
+                      \E i \in 1..Len(L), j \in 1..Len(R) : IF f.sw THEN Cmp(R[j], L[i]) ELSE Cmp(L[i], R[j])
     [] f.op = "eqr" -> "hr" \in DOMAIN f /\ f.hr /\ HasKey(e, f.key) /\ Member(e, f.key) = f.rv
     [] f.op = "eqk" -> HasKey(e, f.key) /\ Member(e, f.key) = f.c
     [] f.op = "gtk" -> HasKey(e, f.key) /\ IsInt(Member(e, f.key)) /\ IsInt(f.c) /\ Member(e, f.key).i > f.c.i
@@ -224,7 +236,17 @@ LocsR(path, n, pre, oks, root) ==
             [] f.f = "desc" -> FlatMap(LAMBDA d : LocsR(rest, d.n, d.loc, oks \o Free(Len(d.loc) - Len(pre)), root), DescNodes(n, pre))
             [] OTHER -> FlatMap(LAMBDA k : LocsR(rest, k.n, Append(pre, k.s), Append(oks, [o |-> k.o, r |-> k.r]), root), Kids(f, n))
 \* copy what a script reads from the root (`$.rk`) into its filter fragment
-BindF(f, root) == IF f.f = "filter" /\ f.op = "eqr"
+\* the values of `$.rk<rf>` / `$..rk` on the root
+RootVals(f, root) ==
+  IF f.rf.f = "desc" THEN LET ds == SelectSeq(DescNodes(root, <<>>), LAMBDA d : HasKey(d.n, f.rk)) IN [j \in 1..Len(ds) |-> Member(ds[j].n, f.rk)]
+  ELSE IF ~HasKey(root, f.rk) THEN <<>>
+  ELSE IF f.rf.f = "union" THEN LET m == Member(root, f.rk)
+                                    its == SelectSeq(f.rf.items, LAMBDA u : ~IsK(u) /\ InRange(u.i, m)) IN
+                                [j \in 1..Len(its) |-> m.a[Norm(its[j].i, Len(m.a)) + 1]]
+  ELSE SubVals(f.rf, Member(root, f.rk))
+BindF(f, root) == IF f.f = "filter" /\ f.op = "mr"
+                  THEN [x \in (DOMAIN f) \cup {"rvs"} |-> IF x = "rvs" THEN RootVals(f, root) ELSE f[x]]
+                  ELSE IF f.f = "filter" /\ f.op = "eqr"
                   THEN [x \in (DOMAIN f) \cup {"hr", "rv"} |->
                           IF x = "hr" THEN HasKey(root, f.rk)
                           ELSE IF x = "rv" THEN (IF HasKey(root, f.rk) THEN Member(root, f.rk) ELSE [z |-> 0])
